@@ -209,6 +209,12 @@ def writeForever():
     else:
       # Avoid churning CPU when there are no metrics are in the cache
       time.sleep(1)
+  # The reactor is stopping: write out what was received since the last pass
+  # (for instance while this thread was sleeping).
+  try:
+    writeCachedDataPoints()
+  except Exception:
+    log.err()
 
 
 def writeTags():
